@@ -33,6 +33,61 @@ PARAM_VOCAB = frozenset(("typ", "doc", "default", "x_typ"))
 ARGUMENTS_FIELDS = ("posonlyargs", "args", "vararg", "kwonlyargs", "kw_defaults", "kwarg", "defaults")
 
 
+def _sentinel(ctx, index):
+    """
+    C14.sentinel — the docstring scanners flush "the parameter being built" into `params` when it differs from an
+    EMPTY SENTINEL (`if param != [None, {}]: params[param[0]] = param[1]`). A list never equals a tuple: if some
+    path resets the local to the same elements spelt as the other kind of display (`param = None, {}`), the test
+    is always true afterwards and the empty accumulator is filed — under the name `None`, which is not a non-empty
+    string. Contradiction rule (no statistics): within one function, a local compared (== / !=) with a list or tuple
+    display, and an assignment of the same elements as the other kind of display to that local.
+    """
+    n_cmp = 0
+    for f in index.nontest_funcs():
+        if not f.mod.name.startswith(("cdd.shared.docstring_parsers", "cdd.docstring", "cdd.shared.docstring_utils")):
+            continue
+        cmps = []
+        for n in iter_own(f.node):
+            if isinstance(n, ast.Compare) and len(n.ops) == 1 and isinstance(n.ops[0], (ast.Eq, ast.NotEq)):
+                a, b = n.left, n.comparators[0]
+                for v, lit in ((a, b), (b, a)):
+                    if isinstance(v, ast.Name) and isinstance(lit, (ast.List, ast.Tuple)):
+                        cmps.append((v.id, lit, n))
+        for var, lit, cmp_node in cmps:
+            n_cmp += 1
+            elts = [norm(e) for e in lit.elts]
+            bad = [
+                st
+                for st in iter_own(f.node)
+                if isinstance(st, (ast.Assign, ast.AnnAssign))
+                and st.value is not None
+                and any(isinstance(t, ast.Name) and t.id == var for t in (st.targets if isinstance(st, ast.Assign) else [st.target]))
+                and isinstance(st.value, (ast.List, ast.Tuple))
+                and type(st.value) is not type(lit)
+                and [norm(e) for e in st.value.elts] == elts
+            ]
+            ctx.ob(
+                "C14.sentinel",
+                f,
+                "`{}` is reset with the same kind of display it is compared with (`{}`)".format(var, short(cmp_node, 50)),
+                not bad,
+                ""
+                if not bad
+                else "`{}` is compared with the {} `{}` but line {} resets it to the {} `{}`: a list never equals a tuple, so "
+                "the test is always true afterwards and the EMPTY accumulator is stored as a parameter — under the name "
+                "`None`".format(
+                    var,
+                    type(lit).__name__.lower(),
+                    norm(lit),
+                    bad[0].lineno,
+                    type(bad[0].value).__name__.lower(),
+                    norm(bad[0].value),
+                ),
+                line=(bad[0] if bad else cmp_node).lineno,
+            )
+    ctx.floor("comparisons of an accumulator with an empty-sentinel display", n_cmp, 1)
+
+
 def run(ctx):
     """entry"""
     index = ctx.index
@@ -111,6 +166,7 @@ def run(ctx):
     ctx.section(_receiver, ctx, index)
     ctx.section(_typ_syntax, ctx, index)
     ctx.section(_doc_is_text, ctx, index, funcs)
+    ctx.section(_sentinel, ctx, index)
     from ..keystate import stale_rule
 
     ctx.section(stale_rule, ctx, "C14.stale", funcs, "the normalisation of the parameter entry")
